@@ -58,8 +58,15 @@ class SimClock:
             # one read only: no sample was (or could have been) recorded
             self.pending.pop(rank)
         else:
-            # two reads: the wrapper timed the raising call as well
+            # two reads: the wrapper timed the raising call as well. Only
+            # COMPLETED calls contribute samples (statement of C20), so the
+            # reference drops it again and the run is flagged
             self.samples_on_raise += 1
+            name = self.current.get(rank, '?')
+            if self.ref.get(name):
+                self.ref[name].pop()
+                if not self.ref[name]:
+                    del self.ref[name]
 
     def ref_query(self, average: bool, max_history: Any) -> dict[str, float]:
         out = {}
@@ -178,9 +185,8 @@ def execute(plan: dict[str, Any], tape: Any = None) -> dict[str, Any]:
     finally:
         tracing.time = real_time  # type: ignore
         tracing.clear_trace()
-    if 0 < clock.samples_on_raise < stats['raising_calls']:
-        # both hypotheses are allowed, mixing them is not
-        violations.append({'clause': 'C20.inconsistent_on_raise',
+    if clock.samples_on_raise:
+        violations.append({'clause': 'C20.sample_for_raising_call',
                            'props': ['C20'],
                            'timed': clock.samples_on_raise,
                            'raising': stats['raising_calls']})
